@@ -203,6 +203,7 @@ class Sys:
         self.link = {}  # tunnel's own open -> child's open token
         self.anomalies = []
         self.foreign = {}
+        self.close_name = {}  # "c"/"s" -> name of the ConnectionClosed event of that connection
 
     # -- construction
     def setup(self, topo, debug):
@@ -256,6 +257,9 @@ class Sys:
             return "e0"
         if isinstance(event, events.DataReceived):
             return event.data.decode()
+        if isinstance(event, events.ConnectionClosed):
+            side = "c" if event.connection is self.ctx.client else "s"
+            return self.close_name.get(side, "close:" + side)
         if isinstance(event, events.CommandCompleted):
             c = event.command
             if isinstance(c, C04ProbeHook) and self.foreign.get(c.data) is c:
@@ -334,6 +338,12 @@ class Sys:
             hook = C04ProbeHook(name)
             self.foreign[name] = hook
             ev = events.HookCompleted(hook)
+        elif kind in ("Z", "K"):
+            # the server (Z) / the client (K) closes; a connection closes once, so the event is named by its connection
+            conn = self.ctx.server if kind == "Z" else self.ctx.client
+            conn.state &= ~ConnectionState.CAN_READ  # what server.py does before it sends the event
+            self.close_name["s" if kind == "Z" else "c"] = name
+            ev = events.ConnectionClosed(conn)
         else:  # pragma: no cover
             raise HarnessError(kind)
         self.n += 1
@@ -440,6 +450,7 @@ class Spec:
     def __init__(self, n, progs, topos, debugs, n_debug):
         self.n, self.progs, self.topos, self.debugs = n, progs, topos, debugs
         self.n_debug = n_debug
+        self.nl_kinds = ["D", "Z", "K"]  # event kinds of the NextLayer topologies (make_spec adds "F" for thorough)
         self.prefix = ()  # actions applied by build(): one BFS per prefix is dealt to the worker pool
 
     def build(self):
@@ -508,7 +519,14 @@ class Spec:
                         acts.append(["ev", "D", {"M": pm, "A": pc}, None])
                         acts.append(["ev", "Y", {"M": pm, "B": pc}, None])
             elif tp in ("nextlayer", "tunnel_nextlayer"):
-                for k in ["D", "F"]:
+                # D asks; F (thorough), Z = server closes, K = client closes do not ask and are only buffered for the
+                # replay.  A connection closes once; the client sends nothing after its close (server data would).
+                had = [k for _, k in s.arrivals]
+                for k in self.nl_kinds:
+                    if k in ("Z", "K") and k in had:
+                        continue
+                    if k == "D" and "K" in had:
+                        continue
                     for pc in P:
                         acts.append(["ev", k, {"C": pc}, None])
         return acts
@@ -554,6 +572,8 @@ class Spec:
             return e.data.decode()
         if isinstance(e, events.CommandCompleted):
             return "done:" + str(s.tok_of_cmd(e.command) or type(e.command).__name__)
+        if isinstance(e, events.ConnectionClosed):
+            return s.name_of(e)
         return type(e).__name__
 
     # -- the oracle
@@ -660,9 +680,13 @@ PREFIX_LEN = 3
 def make_spec(tier):
     if tier == "thorough":
         # with proxy_debug on (extra Log commands from Layer.__debug) the quick event bound is used
-        return Spec(N_THOROUGH, PROGS_THOROUGH, TOPOS, [False, True], N_QUICK)
+        sp = Spec(N_THOROUGH, PROGS_THOROUGH, TOPOS, [False, True], N_QUICK)
+        sp.nl_kinds = ["D", "F", "Z", "K"]
+        return sp
     if tier == "replay":
-        return Spec(dict((k, 9) for k in TOPOS), PROGS_THOROUGH, TOPOS, [False, True], None)
+        sp = Spec(dict((k, 9) for k in TOPOS), PROGS_THOROUGH, TOPOS, [False, True], None)
+        sp.nl_kinds = ["D", "F", "Z", "K"]
+        return sp
     return Spec(N_QUICK, PROGS_QUICK, TOPOS, [False], None)
 
 
